@@ -66,8 +66,9 @@ func ZZ_C13_Executed() {
 	vrt.Assert("c13.executed.no-new-batches", len(after) <= len(st.batches)-1)
 }
 
-// zzCleanupTimedOut mirrors abci.cleanupTimedOutBatchTxs with the keeper API (the abci function itself is run by
-// the package-mhub2 harnesses); here the keeper primitives it relies on are checked in isolation.
+// ZZ_C13_CancelOnlyTimedOut: the keeper primitives the timeout sweep relies on (CancelBatchTx, the observed-height
+// record) driven by a harness loop; the real abci.cleanupTimedOutBatchTxs is ZZ_C13_Cleanup (package mhub2), whose
+// obligations are the c13.cleanup.* ones.
 func ZZ_C13_CancelOnlyTimedOut() {
 	st := zzBuildState(zzC13Opts())
 	k, ctx, chain := st.env.K, st.env.Ctx, st.chain
@@ -98,13 +99,13 @@ func ZZ_C13_CancelOnlyTimedOut() {
 	for _, b := range st.batches {
 		still := zzHasBatch(after, b.ExternalTokenId, b.BatchNonce)
 		if b.Timeout < extHeight {
-			vrt.Assert("c13.cleanup.timed-out-withdrawn", !still)
+			vrt.Assert("c13.cancel-primitive.timed-out-withdrawn", !still)
 			for _, t := range b.Transactions {
 				p, bb := zzCount(k, ctx, chain, t.Id)
-				vrt.Assert("c13.cleanup.back-in-pool", p == 1 && bb == 0)
+				vrt.Assert("c13.cancel-primitive.back-in-pool", p == 1 && bb == 0)
 			}
 		} else {
-			vrt.Assert("c13.cleanup.live-batch-kept", still)
+			vrt.Assert("c13.cancel-primitive.live-batch-kept", still)
 		}
 	}
 }
